@@ -14,6 +14,14 @@ import (
 	"github.com/karagenc/socket.io-go/internal/vsched"
 )
 
+// showOutcomes (VERIF_SHOW_OUTCOMES=<file>) appends every distinct outcome of a scenario to the file the first
+// time a shard sees it (a diagnostic: which behaviours did the exploration actually produce?).
+var showOutcomes = os.Getenv("VERIF_SHOW_OUTCOMES") != ""
+
+// dumpTraces (VERIF_DUMP_TRACES=<file>) appends one block per execution: its outcome and every deviation taken
+// (position, pick, the described alternatives). Only for diagnosing a small scenario.
+var dumpTraces = os.Getenv("VERIF_DUMP_TRACES")
+
 // Violation is one property failure observed in one execution (or one enumerated case).
 type Violation struct {
 	Key string `json:"key"` // stable identity of the failing input / call site / history shape
@@ -125,6 +133,9 @@ type explorer struct {
 
 func (x *explorer) options(prefix []vsched.Pick) vsched.Options {
 	o := vsched.Options{Horizon: x.sc.Horizon, PreemptOnly: x.sc.PreemptOnly, EarlyTimers: x.sc.EarlyTimers, Prefix: prefix, MaxSteps: x.sc.MaxSteps}
+	if dumpTraces != "" {
+		o.Describe = true
+	}
 	if !x.sc.NoCache {
 		o.Prune = func(s [2]uint64, last uint64, devs int) bool {
 			k := cacheKey{s, last}
@@ -249,6 +260,17 @@ func (x *explorer) explore(prefix []vsched.Pick, depth int) {
 		x.stopped = true
 		return
 	}
+	if dumpTraces != "" {
+		if f, err := os.OpenFile(dumpTraces, os.O_APPEND|os.O_CREATE|os.O_WRONLY, 0o644); err == nil {
+			fmt.Fprintf(f, "EXEC %s shard %d devs %d pruned %v outcome %s\n", x.sc.Name, x.shard, e.Deviations(), e.Pruned, r.Outcome)
+			for i, c := range e.Trace {
+				if c.Picked != 0 {
+					fmt.Fprintf(f, "  choice %d picked %d of %v\n", i, c.Picked, c.Alts)
+				}
+			}
+			f.Close()
+		}
+	}
 	if e.Pruned {
 		st.Pruned++
 	} else {
@@ -264,6 +286,12 @@ func (x *explorer) explore(prefix []vsched.Pick, depth int) {
 		}
 		if len(e.Trace) > st.MaxChoices {
 			st.MaxChoices = len(e.Trace)
+		}
+		if showOutcomes && st.Outcomes[r.Outcome] == 0 {
+			if f, err := os.OpenFile(os.Getenv("VERIF_SHOW_OUTCOMES"), os.O_APPEND|os.O_CREATE|os.O_WRONLY, 0o644); err == nil {
+				fmt.Fprintf(f, "OUTCOME %s [shard %d, %d deviations]: %s\n", x.sc.Name, x.shard, e.Deviations(), r.Outcome)
+				f.Close()
+			}
 		}
 		st.Outcomes[r.Outcome]++
 		for _, v := range r.Violations {
